@@ -462,3 +462,10 @@ MUTANTS += [
   "old": "        return expr.func(*[evaluate_deltas(arg, target_idx)\n                           for arg in expr.args])",
   "new": "        return expr.func(*[evaluate_deltas(arg)\n                           for arg in expr.args])"},
 ]
+MUTANTS += [
+ {"id": "c10-objsym-base-only", "prop": "C10", "file": "adcgen/expr_container.py", "old": "        new_expr = Expr(self.sympy, **assumptions)\n        return new_expr.terms[0].symmetry(only_target=True)", "new": "        new_expr = Expr(self.base, **assumptions)\n        return new_expr.terms[0].symmetry(only_target=True)"},
+ {"id": "c10-objsym-all-indices", "prop": "C10", "file": "adcgen/expr_container.py", "old": "        if only_contracted:\n            indices = self.term.contracted\n        elif only_target:\n            indices = self.term.target\n        else:\n            indices = self.idx\n        assumptions = self.assumptions", "new": "        if only_contracted:\n            indices = self.term.contracted\n        elif only_target:\n            indices = self.idx\n        else:\n            indices = self.idx\n        assumptions = self.assumptions"},
+]
+HARMLESS += [
+ {"id": "h-c10-objsym-local", "prop": "C10", "file": "adcgen/expr_container.py", "old": "        new_expr = Expr(self.sympy, **assumptions)\n        return new_expr.terms[0].symmetry(only_target=True)", "new": "        probe = Expr(self.sympy, **assumptions).terms[0]\n        return probe.symmetry(only_target=True)"},
+]
